@@ -13,6 +13,7 @@ quantity, not of one entry that may be the result of cancellation); `m = 0` prin
   spec    <state> keys pop                   (published form)
   generate dim lambda centroid sigma BD tape     (answers `bad-tape` when the tape is shorter than lambda·dim)
   sort    keys
+  relambda dim oldlambda newlambda mu|- scheme cs|- damps|- ccum|- ccov1|- ccovmu|-   (lambda_ = new; computeParams(params))
   <state> = dim mu weights mueff cc cs ccov1 ccovmu damps chiN count centroid sigma pc ps C B diagD
 -/
 namespace DriverC13
@@ -163,6 +164,16 @@ def handle : List String → String
       match generate s z (fun x => x) with
       | some (pts, rest) => toString pts.length ++ " " ++ toString rest.length ++ " " ++ showMatN pts
       | none => "bad-tape"
+    | none => "bad-op"
+  | ["relambda", dim, oldlam, newlam, mu, scheme, cs, damps, ccum, ccov1, ccovmu] =>
+    match (do let d ← parseNat dim; let l0 ← parseNat oldlam; let l ← parseNat newlam
+              let o ← parseOver "-" mu scheme cs damps ccum ccov1 ccovmu none; pure (d, l0, l, o)) with
+    | some (d, l0, l, some o) =>
+      if o.mu.getD (l / 2) = 0 then "error ZeroDivisionError" else
+      let s0 : State Float := { dim := d, centroid := [], sigma := 0.0, pc := [], ps := [], chiN := 0.0, C := [], diagD := [], B := [], BD := [], cond := 0.0, lambda_ := l0, updateCount := 0, par := computeParams d l0 o }
+      let s := relambda s0 l o
+      toString s.lambda_ ++ " " ++ showParams s.par
+    | some (_, _, _, none) => "error RuntimeError"
     | none => "bad-op"
   | ["sort", keys] =>
     match mat keys with
